@@ -73,3 +73,20 @@ func VerifC04_UnmarshalArray() {
 	verifAssert(UnmarshalArray(list, out) != nil, "UnmarshalArray: a non-pointer target is an error")
 	verifReach("c04.UnmarshalArray")
 }
+
+// The debug dump is evaluated by the transport for every datagram it sends or receives (as an argument of its
+// debug printing, whether or not debugging is on), before any length check: it must take any byte string.
+func VerifC04_Dump() {
+	verifInterpret("codec.Dump")
+	m := nondetBuffer("m", 40) // 0..40 bytes: empty, partial first half, partial second half, several lines
+	s := Dump(m, " ... ")
+	lines := (len(m) + 15) / 16
+	n := 0
+	for i := 0; i < len(s); i++ {
+		if s[i] == '\n' {
+			n++
+		}
+	}
+	verifAssert(n == lines, "Dump: one line per 16 bytes, for any length")
+	verifReach("c04.dump")
+}
